@@ -69,6 +69,11 @@ where
         // the remaining length was declared by the client: it must never size an allocation
         let mut buf = [0; 4096];
 
+        #[cfg(tiny_http_verif)]
+        if remaining_to_read > 0 {
+            simrt::probe("equal_reader.discards_unread_remainder");
+        }
+
         while remaining_to_read > 0 {
             let len = remaining_to_read.min(buf.len());
 
